@@ -542,7 +542,7 @@ func translateStmt(pkg string, st ast.Stmt, en env, enc bool, cvar string) []*sh
 
 // ---- emission ----
 func coqName(q string) string {
-	r := strings.NewReplacer("/", "_", ".", "_")
+	r := strings.NewReplacer("/", "_", ".", "_", "#", "_")
 	return r.Replace(q)
 }
 
@@ -747,15 +747,20 @@ func main() {
 		sort.Strings(names)
 		for _, n := range names {
 			ms := p.meths[n]
-			encD, decD := ms["EncodeTo"], ms["DecodeFrom"]
-			if encD == nil && decD == nil {
+			type pairT struct{ enc, dec, suffix string }
+			pairs := []pairT{{"EncodeTo", "DecodeFrom", ""}}
+			if ms["EncodeTo"] == nil && ms["DecodeFrom"] == nil {
 				// unexported codec pairs (rhp/v4 RPC objects)
-				encD, decD = ms["encodeTo"], ms["decodeFrom"]
+				pairs = []pairT{{"encodeTo", "decodeFrom", ""}}
 			}
+			// gateway RPC objects: separate request and response codecs
+			pairs = append(pairs, pairT{"encodeRequest", "decodeRequest", "#request"}, pairT{"encodeResponse", "decodeResponse", "#response"})
+			for _, pr := range pairs {
+			encD, decD := ms[pr.enc], ms[pr.dec]
 			if encD == nil && decD == nil {
 				continue
 			}
-			to := &typeOut{Q: dir + "." + n}
+			to := &typeOut{Q: dir + "." + n + pr.suffix}
 			tr := func(fd *ast.FuncDecl, enc bool) *shape {
 				if fd == nil {
 					return opaque("method missing")
@@ -792,6 +797,7 @@ func main() {
 			}
 			outs = append(outs, to)
 			byQ[to.Q] = to
+			}
 		}
 	}
 	// dependency order
@@ -922,6 +928,22 @@ func main() {
 				continue
 			}
 			fmt.Fprintf(&g, "\t{%q, func() rhp4.Object { return new(rhp4.%s) }},\n", t.Q, n)
+		}
+		g.WriteString("}\n\n// gateway RPC objects: request and response codecs (unexported, driven through the verif hooks by the wrappers in gateway_wrap.go)\nvar genGatewayCodecs = []struct {\n\tname string\n\ttyp  reflect.Type\n}{\n")
+		for _, t := range order {
+			pd, q := splitQ(t.Q)
+			if pd != "gateway" || !strings.Contains(q, "#") {
+				continue
+			}
+			n := q[:strings.Index(q, "#")]
+			if !ast.IsExported(n) {
+				continue
+			}
+			w := "gwReq"
+			if strings.HasSuffix(q, "#response") {
+				w = "gwResp"
+			}
+			fmt.Fprintf(&g, "\t{%q, reflect.TypeOf(%s[gateway.%s, *gateway.%s]{})},\n", t.Q, w, n, n)
 		}
 		g.WriteString("}\n")
 		writeIfChanged(filepath.Join(*hout, "gen_alltypes.go"), g.String())
